@@ -58,6 +58,13 @@ func (sapp *serverApp) AfterApply() error {
 		return fmt.Errorf("root %q exists but is not a directory", root)
 	}
 
+	// Paths below the root are tidied up textually before use. With ".." behind a symlink in the root's own spelling
+	// that would name another directory than the one checked above, so serve the checked one under its real name.
+	root, err = filepath.EvalSymlinks(root)
+	if err != nil {
+		return fmt.Errorf("root directory: %w", err)
+	}
+
 	sapp.Root = root
 
 	return nil
